@@ -326,6 +326,25 @@ def main(run):
             hyp = max(hyp, np.abs(E.conj().T @ E - np.eye(nb)).max())
         hyp = max(hyp, np.abs(np.abs(phij) - 1).max() if nij else 0.0, np.abs(np.abs(cosii) - 1).max())
         run.count("hypotheses-checked(orthonormal eigenvectors, unit phases)", section="correspondence")
+        # hypotheses of uu_eq_cov / d2f_identity on the phase tables
+        hyp2 = 0.0
+        for q_ in range(nij):
+            for i_ in range(npa):
+                hyp2 = max(hyp2, np.abs(pd[nii + q_, :, i_] - phij[q_, p2s[i_]] * phij[q_].conj()).max(),
+                           np.abs(pd[nii + nij + q_, :, i_] - pd[nii + q_, :, i_].conj()).max())
+        for q_ in range(nii):
+            for i_ in range(npa):
+                hyp2 = max(hyp2, np.abs(vd[q_, i_] * vd[q_, s2pp].conj() * pd[q_, :, i_] - cosii[q_, p2s[i_]] * cosii[q_]).max())
+        for i_ in range(npa):
+            hyp2 = max(hyp2, np.abs(ms[i_, s2pp] / N / (pm[i_] * mass) * (rm[p2s[i_]] * rm) - 1).max())
+            for j_ in range(nsat):
+                same = np.where(s2pp == s2pp[j_])[0]
+                g = (pd[:, same, i_].conj() * pd[:, [j_], i_]).sum(axis=0)
+                want = np.where(same == j_, N, 0)
+                hyp2 = max(hyp2, np.abs(g - want).max() / N)
+        run.count("hypotheses-checked(d2f phases = sampler phases, character orthogonality, mass factor)", section="correspondence")
+        if hyp2 > 1e-8:
+            run.broke("correspondence", "hypothesis of uu_eq_cov/d2f_identity fails numerically (%.3g)" % hyp2, info)
         if hyp > 1e-8:
             run.broke("correspondence", "hypothesis of cov_eq_canonical fails numerically (%.3g)" % hyp, info)
 
@@ -535,5 +554,5 @@ def main(run):
     run.cov["partial"] = [
         "uu_inv_is_inverse_partial: per commensurate point (spectral projector); the supercell statement FullStatement_uu_inv_is_inverse is carried by the oracle (UVU=U, VUV=V, tr(UV)=rank)",
         "d2f_identity: eigh exactness, D(-q)=conj D(q) and character orthogonality are hypotheses; the end-to-end statement is carried by the oracle (run_d2f returns the input force constants)",
-        "uu = canonical covariance: correspondence (model uuRow) + oracle (dense covariance) only",
+        "uu_eq_cov: theorem under phase-table hypotheses that are checked numerically per case",
     ]
